@@ -48,6 +48,8 @@ def main():
         print(sid, 'caught_by', caught, 'concrete', concrete, '|', how[:140], flush=True)
     rc, o = sh('git -C /repo status --short')
     print('repo clean' if not o.strip() else 'REPO NOT CLEAN:\n' + o)
+    # the evidence files now describe runs against changed code: put the committed (clean-tree) ones back
+    sh('git -C /verif checkout -- evidence')
 
 if __name__ == '__main__':
     main()
